@@ -1,104 +1,1183 @@
-use std::borrow::Cow;
-use std::collections::BTreeMap;
-use vcore::errs::{kind, line_col};
-use vcore::rdr::{Chunking, CutReader, RFault};
-use vcore::targets;
+//! C09 — all entry points agree: str, slice, closure helpers, reader under any
+//! chunking; BOM ignored by all; borrowed vs owned strings.
+//!
+//! Differential oracle on the real code. For a text `x`, options `o` and owned
+//! target `T` the reference outcome is `from_str_with_options::<T>(x, o)`; every
+//! other entry point (`from_slice`, `with_deserializer_from_str/slice`,
+//! `from_reader` and `with_deserializer_from_reader` fed through a reader that
+//! honours an exact partition of the bytes into `read` calls) must return an equal
+//! `Ok` value, or an `Err` of the same kind (variant of `without_snippet()`) at the
+//! same (line, column). The BOM-prefixed variant of `x` is compared with the
+//! reference of the BOM-less `x` on every entry point, positions included.
+//! Borrowing: see `borrow` below.
 
-fn show(o: &targets::Outcome) -> String {
+mod corpus;
+
+use serde::Deserialize;
+use serde_json::{Value, json};
+use std::borrow::Cow;
+use std::collections::{BTreeMap, HashSet};
+use vcore::errs::{kind, line_col};
+use vcore::obs::{catch, panic_site};
+use vcore::rdr::{Chunking, CutReader, adversarial_positions};
+use vcore::reftree::{self, RNode};
+use vcore::rng::{Rng, fnv_parts};
+use vcore::run::{Finish, Run, Tier, par_range};
+use vcore::targets::{self, Outcome, Target};
+use vcore::ydoc::{self, Node, RenderOpts, Style};
+
+const BOM: &str = "\u{FEFF}";
+
+// ------------------------------------------------------------------ options
+
+fn opts(v: usize) -> serde_saphyr::Options {
+    let mut o = serde_saphyr::Options::default();
+    #[allow(deprecated)]
+    match v {
+        1 => {
+            o.duplicate_keys = serde_saphyr::DuplicateKeyPolicy::LastWins;
+            o.strict_booleans = true;
+            o.legacy_octal_numbers = true;
+            o.no_schema = true;
+        }
+        2 => {
+            o.duplicate_keys = serde_saphyr::DuplicateKeyPolicy::FirstWins;
+            let mut b = serde_saphyr::Budget::default();
+            b.max_events = 7;
+            b.max_depth = 2;
+            b.max_nodes = 5;
+            b.max_total_scalar_bytes = 24;
+            o.budget = Some(b);
+        }
+        3 => {
+            o.with_snippet = false;
+            o.crop_radius = 0;
+        }
+        _ => {}
+    }
+    o
+}
+
+// ------------------------------------------------------------------ outcomes
+
+#[derive(Clone, Debug, PartialEq, Eq)]
+enum Canon {
+    Ok(String),
+    Err(String, Option<(u64, u64)>),
+}
+
+fn canon(o: &Outcome) -> Canon {
     match o {
-        Ok(v) => format!("Ok({v})"),
-        Err(e) => format!("Err({} @ {:?})", kind(e), line_col(e)),
+        Ok(v) => Canon::Ok(v.clone()),
+        Err(e) => Canon::Err(kind(e), line_col(e)),
     }
 }
 
-#[derive(Debug, serde::Deserialize)]
-struct B<'a> {
-    #[serde(borrow)]
-    k1: Cow<'a, str>,
-    k2: &'a str,
+fn show_c(c: &Canon) -> String {
+    match c {
+        Canon::Ok(v) => format!("Ok({})", v.chars().take(200).collect::<String>()),
+        Canon::Err(k, lc) => format!("Err({k} @ {lc:?})"),
+    }
+}
+
+/// None = the two outcomes agree in the sense of the property.
+fn diff(reference: &Canon, got: &Canon) -> Option<String> {
+    match (reference, got) {
+        (Canon::Ok(a), Canon::Ok(b)) => (a != b).then(|| "value-differs".to_string()),
+        (Canon::Ok(_), Canon::Err(k, _)) => Some(format!("ok-vs-err:{k}")),
+        (Canon::Err(k, _), Canon::Ok(_)) => Some(format!("err:{k}-vs-ok")),
+        (Canon::Err(k1, l1), Canon::Err(k2, l2)) => {
+            if k1 != k2 {
+                Some(format!("kind-differs:{k1}-vs-{k2}"))
+            } else if l1 != l2 {
+                Some(format!("location-differs:{k1}"))
+            } else {
+                None
+            }
+        }
+    }
+}
+
+/// Rare input features that go into the signature (a different defect class
+/// should not share a signature with a common one).
+fn rare_features(text: &str) -> String {
+    let mut f = String::new();
+    if text.contains('\0') {
+        f.push_str(":nul");
+    }
+    let b = text.as_bytes();
+    if (0..b.len()).any(|i| b[i] == b'\r' && b.get(i + 1) != Some(&b'\n')) {
+        f.push_str(":cr-only");
+    }
+    if text.contains(['\u{85}', '\u{2028}', '\u{2029}']) {
+        f.push_str(":uni-break");
+    }
+    if text.chars().skip(1).any(|c| c == '\u{FEFF}') {
+        f.push_str(":inner-bom");
+    }
+    f
+}
+
+/// Class of an input on which a reader entry point never stops polling.
+fn runaway_class(text: &str) -> &'static str {
+    let last = text.rsplit(['\n', '\r']).next().unwrap_or("");
+    if last.starts_with('%') {
+        "directive-line-runs-to-end-of-input"
+    } else {
+        "other"
+    }
+}
+
+#[derive(Clone, Copy, Debug, PartialEq, Eq)]
+enum Entry {
+    FromStr,
+    FromSlice,
+    WithDeStr,
+    WithDeSlice,
+    FromReader,
+    WithDeReader,
+}
+
+impl Entry {
+    fn name(self) -> &'static str {
+        match self {
+            Entry::FromStr => "from_str",
+            Entry::FromSlice => "from_slice",
+            Entry::WithDeStr => "with_de_str",
+            Entry::WithDeSlice => "with_de_slice",
+            Entry::FromReader => "from_reader",
+            Entry::WithDeReader => "with_de_reader",
+        }
+    }
+    fn from_name(n: &str) -> Entry {
+        match n {
+            "from_slice" => Entry::FromSlice,
+            "with_de_str" => Entry::WithDeStr,
+            "with_de_slice" => Entry::WithDeSlice,
+            "from_reader" => Entry::FromReader,
+            "with_de_reader" => Entry::WithDeReader,
+            _ => Entry::FromStr,
+        }
+    }
+}
+
+/// Run one entry point; returns the outcome and the number of `read` calls that
+/// delivered data (0 for the in-memory entry points).
+fn run_entry(t: &Target, e: Entry, text: &str, optv: usize, ch: &Chunking) -> Result<(Outcome, usize), String> {
+    catch(|| match e {
+        Entry::FromStr => ((t.from_str)(text, opts(optv)), 0),
+        Entry::FromSlice => ((t.from_slice)(text.as_bytes(), opts(optv)), 0),
+        Entry::WithDeStr => ((t.with_de_str)(text, opts(optv)), 0),
+        Entry::WithDeSlice => ((t.with_de_slice)(text.as_bytes(), opts(optv)), 0),
+        Entry::FromReader => {
+            let mut r = CutReader::plain(text.as_bytes(), ch.clone());
+            let dc = r.data_calls_handle();
+            let o = (t.from_reader)(&mut r, opts(optv));
+            let n = *dc.borrow();
+            (o, n)
+        }
+        Entry::WithDeReader => {
+            let mut r = CutReader::plain(text.as_bytes(), ch.clone());
+            let dc = r.data_calls_handle();
+            let o = (t.with_de_reader)(&mut r, opts(optv));
+            let n = *dc.borrow();
+            (o, n)
+        }
+    })
+}
+
+// ------------------------------------------------------------------ local accumulation
+
+#[derive(Default)]
+struct Local {
+    counts: BTreeMap<&'static str, u64>,
+    kinds: HashSet<String>,
+}
+
+impl Local {
+    fn add(&mut self, k: &'static str, n: u64) {
+        *self.counts.entry(k).or_insert(0) += n;
+    }
+    fn flush(&mut self, run: &Run) {
+        run.count_map(&self.counts);
+        self.counts.clear();
+        for k in self.kinds.drain() {
+            run.observe("error_kinds", &k);
+        }
+    }
+}
+
+// ------------------------------------------------------------------ the entry-point comparison
+
+struct Sched {
+    label: &'static str,
+    ch: Chunking,
+}
+
+/// Does the chunking cut inside a multi-byte character / between CR and LF?
+fn cut_stats(bytes: &[u8], ch: &Chunking, l: &mut Local) {
+    let n = bytes.len();
+    let mut inside = 0u64;
+    let mut crlf = 0u64;
+    let mut check = |p: usize| {
+        if p > 0 && p < n {
+            if bytes[p] & 0xC0 == 0x80 {
+                inside += 1;
+            }
+            if bytes[p - 1] == b'\r' && bytes[p] == b'\n' {
+                crlf += 1;
+            }
+        }
+    };
+    match ch {
+        Chunking::Every(k) => {
+            let k = (*k).max(1);
+            if k < n {
+                let mut p = k;
+                while p < n {
+                    check(p);
+                    p += k;
+                }
+            }
+        }
+        Chunking::Cuts(v) => v.iter().for_each(|p| check(*p)),
+        Chunking::Mask(m) => {
+            for i in 0..n.min(64) {
+                if (m >> i) & 1 == 1 {
+                    check(i + 1);
+                }
+            }
+        }
+        Chunking::Whole => {
+            let mut p = 8192;
+            while p < n {
+                check(p);
+                p += 8192;
+            }
+        }
+    }
+    if inside > 0 {
+        l.add("cases_with_cut_inside_codepoint", 1);
+    }
+    if crlf > 0 {
+        l.add("cases_with_cut_between_cr_lf", 1);
+    }
+}
+
+#[allow(clippy::too_many_arguments)]
+fn compare_one(
+    run: &Run,
+    l: &mut Local,
+    section: &'static str,
+    base: &str,
+    text: &str,
+    bom: bool,
+    t: &Target,
+    optv: usize,
+    reference: &Canon,
+    e: Entry,
+    sched_label: &'static str,
+    ch: &Chunking,
+) -> bool {
+    run.eval();
+    let case = || {
+        json!({"section": section, "text": base, "bom": bom, "target": t.name, "opts": optv,
+               "entry": e.name(), "schedule": sched_label, "chunking": ch.to_json()})
+    };
+    match run_entry(t, e, text, optv, ch) {
+        Err(p) if p.contains(vcore::rdr::RUNAWAY_MSG) => {
+            // from_str returned, the reader path keeps polling a finished reader forever
+            l.add("reader_runaway_after_end_of_input", 1);
+            run.violation(
+                &format!("C09:reader-path-never-returns:{}", runaway_class(text)),
+                case(),
+                format!("from_str on BOM-less text: {} | {}: {p}", show_c(reference), e.name()),
+            );
+            return true;
+        }
+        Err(p) => run.violation(&format!("C09:panic:{}", panic_site(&p)), case(), p),
+        Ok((o, data_calls)) => {
+            let c = canon(&o);
+            if let Canon::Err(k, _) = &c
+                && !l.kinds.contains(k)
+            {
+                l.kinds.insert(k.clone());
+            }
+            match diff(reference, &c) {
+                Some(d) => {
+                    let sig = if !bom && base.starts_with("\u{FEFF}\u{FEFF}") {
+                        // same text on both sides: from_str removes two marks, the reader path one
+                        let _ = &d;
+                        "C09:two-leading-boms:reader-differs-from-str".to_string()
+                    } else {
+                        format!("C09:{}:{}{}{}", e.name(), d, if bom { ":bom" } else { "" }, rare_features(base))
+                    };
+                    run.violation(
+                        &sig,
+                        case(),
+                        format!("from_str on BOM-less text: {} | {}: {}", show_c(reference), e.name(), show_c(&c)),
+                    );
+                }
+                None => {
+                    match &c {
+                        Canon::Ok(_) => l.add("agree_ok", 1),
+                        Canon::Err(..) => l.add("agree_err", 1),
+                    }
+                    let reader = matches!(e, Entry::FromReader | Entry::WithDeReader);
+                    if reader {
+                        l.add("reader_runs", 1);
+                        if data_calls >= 2 {
+                            l.add("reader_runs_with_real_split", 1);
+                            cut_stats(text.as_bytes(), ch, l);
+                            run.nontrivial(fnv_parts(&[
+                                base.as_bytes(),
+                                &[bom as u8, optv as u8],
+                                t.name.as_bytes(),
+                                e.name().as_bytes(),
+                                ch.to_json().to_string().as_bytes(),
+                            ]));
+                        }
+                    }
+                }
+            }
+        }
+    }
+    false
+}
+
+/// Compare every entry point on `base` (and on BOM+`base` if `with_bom`).
+fn check_text(
+    run: &Run,
+    l: &mut Local,
+    section: &'static str,
+    base: &str,
+    with_bom: bool,
+    t: &Target,
+    optv: usize,
+    scheds_plain: &[Sched],
+    scheds_bom: &[Sched],
+) {
+    run.eval();
+    let reference = match catch(|| (t.from_str)(base, opts(optv))) {
+        Ok(o) => canon(&o),
+        Err(p) => {
+            run.violation(
+                &format!("C09:panic:{}", panic_site(&p)),
+                json!({"section": section, "text": base, "bom": false, "target": t.name, "opts": optv, "entry": "from_str",
+                       "schedule": "-", "chunking": "whole"}),
+                p,
+            );
+            return;
+        }
+    };
+    if let Canon::Err(k, _) = &reference {
+        l.kinds.insert(k.clone());
+        l.add("reference_err", 1);
+    } else {
+        l.add("reference_ok", 1);
+    }
+    let whole = Chunking::Whole;
+    for e in [Entry::FromSlice, Entry::WithDeStr, Entry::WithDeSlice] {
+        compare_one(run, l, section, base, base, false, t, optv, &reference, e, "-", &whole);
+    }
+    // Once a reader entry point has been seen to spin on this text, no further reader run is made
+    // with it: behind a BOM the decoder stops polling the instrumented reader, so the spin could not
+    // be detected and would hang the harness.
+    let mut dead = false;
+    'plain: for s in scheds_plain {
+        for e in [Entry::FromReader, Entry::WithDeReader] {
+            if compare_one(run, l, section, base, base, false, t, optv, &reference, e, s.label, &s.ch) {
+                dead = true;
+                break 'plain;
+            }
+        }
+    }
+    if !dead && with_bom && scheds_plain.is_empty() {
+        // make sure the plain text has been through a reader once before the BOM variant is tried
+        dead = compare_one(run, l, section, base, base, false, t, optv, &reference, Entry::WithDeReader, "every-1", &Chunking::Every(1));
+    }
+    if dead {
+        run.count("texts_abandoned_after_reader_runaway", 1);
+        return;
+    }
+    if with_bom && base.starts_with(BOM) {
+        // BOM + BOM + x against x: the statement speaks of "a" leading byte-order mark
+        run.count("unspecified/bom-variant-of-text-that-already-starts-with-bom", 1);
+    } else if with_bom {
+        let text = format!("{BOM}{base}");
+        l.add("bom_variants", 1);
+        for e in [Entry::FromStr, Entry::FromSlice, Entry::WithDeStr, Entry::WithDeSlice] {
+            compare_one(run, l, section, base, &text, true, t, optv, &reference, e, "-", &whole);
+        }
+        for s in scheds_bom {
+            for e in [Entry::FromReader, Entry::WithDeReader] {
+                compare_one(run, l, section, base, &text, true, t, optv, &reference, e, s.label, &s.ch);
+            }
+        }
+    }
+}
+
+/// The schedule family of DESIGN §5 C09 for a text of arbitrary length.
+fn schedules(bytes: &[u8], rng: &mut Rng, singles: usize) -> Vec<Sched> {
+    let n = bytes.len();
+    let mut v = Vec::new();
+    if n > 4096 {
+        for (label, ch) in [
+            ("every-1", Chunking::Every(1)),
+            ("every-7", Chunking::Every(7)),
+            ("every-4096", Chunking::Every(4096)),
+            ("every-8191", Chunking::Every(8191)),
+            ("whole", Chunking::Whole),
+        ] {
+            v.push(Sched { label, ch });
+        }
+    } else {
+        for (label, k) in [("every-1", 1), ("every-2", 2), ("every-3", 3), ("every-5", 5), ("every-7", 7), ("every-4096", 4096)] {
+            v.push(Sched { label, ch: Chunking::Every(k) });
+        }
+    }
+    for (label, den) in [("random-1/2", 2usize), ("random-1/8", 8)] {
+        let cuts: Vec<usize> = (1..n).filter(|_| rng.chance(1, den)).collect();
+        v.push(Sched { label, ch: Chunking::Cuts(cuts) });
+    }
+    let adv = adversarial_positions(bytes);
+    if !adv.is_empty() {
+        v.push(Sched { label: "adversarial-all", ch: Chunking::Cuts(adv.clone()) });
+        for _ in 0..singles.min(adv.len()) {
+            let p = *rng.pick(&adv);
+            v.push(Sched { label: "adversarial-single", ch: Chunking::Cuts(vec![p]) });
+            let mut tri = vec![p.saturating_sub(1).max(1), p, (p + 1).min(n.saturating_sub(1)).max(1)];
+            tri.sort_unstable();
+            tri.dedup();
+            v.push(Sched { label: "adversarial-triple", ch: Chunking::Cuts(tri) });
+        }
+    }
+    v
+}
+
+// ------------------------------------------------------------------ borrowing
+
+#[derive(Debug, Deserialize, PartialEq, Eq, PartialOrd, Ord)]
+struct CowW<'a>(#[serde(borrow)] Cow<'a, str>);
+
+fn in_range(input: &str, s: &str) -> bool {
+    if s.is_empty() {
+        return true;
+    }
+    let a = input.as_ptr() as usize;
+    let p = s.as_ptr() as usize;
+    p >= a && p + s.len() <= a + input.len()
+}
+
+#[derive(Clone, Copy, Debug, PartialEq, Eq)]
+enum Shape {
+    Root,
+    Seq,
+    Map,
+}
+
+impl Shape {
+    fn name(self) -> &'static str {
+        match self {
+            Shape::Root => "root",
+            Shape::Seq => "seq",
+            Shape::Map => "map",
+        }
+    }
+}
+
+type SE = serde_saphyr::Error;
+
+/// Flattened observations of one document under one shape.
+struct BRes {
+    owned: Result<Vec<String>, SE>,
+    /// (text, lies inside the input)
+    borrowed: Result<Vec<(String, bool)>, SE>,
+    borrowed_slice: Result<Vec<(String, bool)>, SE>,
+    borrowed_wde: Result<Vec<(String, bool)>, SE>,
+    /// (text, Some(in range) when Cow::Borrowed)
+    cow: Result<Vec<(String, Option<bool>)>, SE>,
+    /// number of &str values obtained through the reader
+    reader_borrowed: Result<usize, SE>,
+}
+
+fn fo_root(s: String) -> Vec<String> {
+    vec![s]
+}
+fn fo_seq(v: Vec<String>) -> Vec<String> {
+    v
+}
+fn fo_map(m: BTreeMap<String, String>) -> Vec<String> {
+    m.into_iter().flat_map(|(k, v)| [k, v]).collect()
+}
+fn fb_root<'a>(s: &'a str) -> Vec<&'a str> {
+    vec![s]
+}
+fn fb_seq<'a>(v: Vec<&'a str>) -> Vec<&'a str> {
+    v
+}
+fn fb_map<'a>(m: BTreeMap<&'a str, &'a str>) -> Vec<&'a str> {
+    m.into_iter().flat_map(|(k, v)| [k, v]).collect()
+}
+fn fc_root<'a>(s: CowW<'a>) -> Vec<Cow<'a, str>> {
+    vec![s.0]
+}
+fn fc_seq<'a>(v: Vec<CowW<'a>>) -> Vec<Cow<'a, str>> {
+    v.into_iter().map(|c| c.0).collect()
+}
+fn fc_map<'a>(m: BTreeMap<CowW<'a>, CowW<'a>>) -> Vec<Cow<'a, str>> {
+    m.into_iter().flat_map(|(k, v)| [k.0, v.0]).collect()
+}
+
+macro_rules! borrow_eval {
+    ($text:expr, $ch:expr, $O:ty, $B:ty, $C:ty, $fo:ident, $fb:ident, $fc:ident) => {{
+        let text: &str = $text;
+        let mark = |v: Vec<&str>| v.into_iter().map(|s| (s.to_string(), in_range(text, s))).collect::<Vec<_>>();
+        let owned = serde_saphyr::from_str_with_options::<$O>(text, opts(0)).map($fo);
+        let borrowed = serde_saphyr::from_str_with_options::<$B>(text, opts(0)).map($fb).map(mark);
+        let borrowed_slice = serde_saphyr::from_slice_with_options::<$B>(text.as_bytes(), opts(0)).map($fb).map(mark);
+        let borrowed_wde =
+            serde_saphyr::with_deserializer_from_str_with_options(text, opts(0), |de| <$B>::deserialize(de)).map($fb).map(mark);
+        let cow = serde_saphyr::from_str_with_options::<$C>(text, opts(0)).map($fc).map(|v| {
+            v.into_iter()
+                .map(|c| match c {
+                    Cow::Borrowed(b) => (b.to_string(), Some(in_range(text, b))),
+                    Cow::Owned(s) => (s, None),
+                })
+                .collect::<Vec<_>>()
+        });
+        let reader_borrowed = {
+            let mut r = CutReader::plain(text.as_bytes(), $ch.clone());
+            serde_saphyr::with_deserializer_from_reader_with_options(&mut r, opts(0), |de| {
+                <$B>::deserialize(de).map(|b| $fb(b).len())
+            })
+        };
+        BRes { owned, borrowed, borrowed_slice, borrowed_wde, cow, reader_borrowed }
+    }};
+}
+
+fn borrow_run(shape: Shape, text: &str, ch: &Chunking) -> Result<BRes, String> {
+    catch(|| match shape {
+        Shape::Root => borrow_eval!(text, ch, String, &str, CowW, fo_root, fb_root, fc_root),
+        Shape::Seq => borrow_eval!(text, ch, Vec<String>, Vec<&str>, Vec<CowW>, fo_seq, fb_seq, fc_seq),
+        Shape::Map => borrow_eval!(
+            text,
+            ch,
+            BTreeMap<String, String>,
+            BTreeMap<&str, &str>,
+            BTreeMap<CowW, CowW>,
+            fo_map,
+            fb_map,
+            fc_map
+        ),
+    })
+}
+
+#[derive(Clone, Copy, Debug, PartialEq, Eq)]
+enum SClass {
+    /// single-line plain / single-quoted without '' / double-quoted without \ whose source span is the value
+    MustBorrow,
+    /// the value does not occur anywhere in the input: borrowing is impossible
+    NotVerbatim,
+    Unspecified,
+}
+
+struct DocInfo {
+    classes: Vec<SClass>,
+    has_alias_or_tag: bool,
+}
+
+/// Classify every scalar of the (BOM-less) document from the raw parser's spans.
+fn doc_info(base: &str) -> Option<DocInfo> {
+    let root = reftree::parse_one(base)?;
+    let mut info = DocInfo { classes: Vec::new(), has_alias_or_tag: false };
+    fn go(n: &RNode, base: &str, info: &mut DocInfo) {
+        use saphyr_parser::ScalarStyle as S;
+        match n {
+            RNode::Alias { .. } => info.has_alias_or_tag = true,
+            RNode::Seq { items, tag, anchor, .. } => {
+                if tag.is_some() || *anchor != 0 {
+                    info.has_alias_or_tag = true;
+                }
+                items.iter().for_each(|i| go(i, base, info));
+            }
+            RNode::Map { entries, tag, anchor, .. } => {
+                if tag.is_some() || *anchor != 0 {
+                    info.has_alias_or_tag = true;
+                }
+                for (k, v) in entries {
+                    go(k, base, info);
+                    go(v, base, info);
+                }
+            }
+            RNode::Scalar { value, style, tag, anchor, pos } => {
+                if tag.is_some() || *anchor != 0 {
+                    info.has_alias_or_tag = true;
+                }
+                let mut class = SClass::Unspecified;
+                if !value.is_empty() {
+                    if !base.contains(value.as_str()) {
+                        class = SClass::NotVerbatim;
+                    } else if let (Some(b), Some(e)) = (pos.byte, pos.end_byte)
+                        && b <= e
+                        && e <= base.len()
+                        && base.is_char_boundary(b)
+                        && base.is_char_boundary(e)
+                    {
+                        let span = &base[b..e];
+                        let single_line = !span.contains(['\n', '\r']);
+                        let verbatim = match style {
+                            S::Plain => span == value,
+                            S::SingleQuoted => !value.contains('\'') && span.len() == value.len() + 2 && &span[1..span.len() - 1] == value && span.starts_with('\'') && span.ends_with('\''),
+                            S::DoubleQuoted => !span.contains('\\') && span.len() == value.len() + 2 && &span[1..span.len() - 1] == value && span.starts_with('"') && span.ends_with('"'),
+                            _ => false,
+                        };
+                        if single_line && verbatim {
+                            class = SClass::MustBorrow;
+                        }
+                    }
+                }
+                info.classes.push(class);
+            }
+        }
+    }
+    go(&root, base, &mut info);
+    Some(info)
+}
+
+fn same_err(a: &SE, b: &SE) -> bool {
+    kind(a) == kind(b) && line_col(a) == line_col(b)
+}
+
+fn check_borrow(run: &Run, l: &mut Local, shape: Shape, base: &str, bom: bool, ch: &Chunking) {
+    let text = if bom { format!("{BOM}{base}") } else { base.to_string() };
+    let case = || json!({"section": "borrow", "text": base, "bom": bom, "shape": shape.name(), "chunking": ch.to_json()});
+    run.evals(6);
+    let r = match borrow_run(shape, &text, ch) {
+        Ok(r) => r,
+        Err(p) => {
+            run.violation(&format!("C09:panic:{}", panic_site(&p)), case(), p);
+            return;
+        }
+    };
+    run.nontrivial(fnv_parts(&[b"borrow", base.as_bytes(), &[bom as u8], shape.name().as_bytes()]));
+    let sfx = if bom { ":bom" } else { "" };
+    let info = doc_info(base);
+
+    // --- Cow<str> always equals String
+    match (&r.owned, &r.cow) {
+        (Ok(w), Ok(c)) => {
+            let cs: Vec<&String> = c.iter().map(|(s, _)| s).collect();
+            let ws: Vec<&String> = w.iter().collect();
+            if cs != ws {
+                run.violation(&format!("C09:borrow:cow-differs-from-string:value{sfx}"), case(), format!("String: {w:?} | Cow: {c:?}"));
+            } else if c.iter().any(|(_, b)| *b == Some(false)) {
+                run.violation(&format!("C09:borrow:cow-borrowed-outside-input{sfx}"), case(), format!("Cow: {c:?}"));
+            } else {
+                l.add("borrow_cow_equals_string", 1);
+                l.add("borrow_cow_values_borrowed", c.iter().filter(|(_, b)| b.is_some()).count() as u64);
+                l.add("borrow_cow_values_owned", c.iter().filter(|(_, b)| b.is_none()).count() as u64);
+            }
+        }
+        (Err(a), Err(b)) => {
+            if !same_err(a, b) {
+                run.violation(
+                    &format!("C09:borrow:cow-differs-from-string:error:{}-vs-{}{sfx}", kind(a), kind(b)),
+                    case(),
+                    format!("String: {} @ {:?} | Cow: {} @ {:?}", kind(a), line_col(a), kind(b), line_col(b)),
+                );
+            } else {
+                l.add("borrow_cow_equals_string_err", 1);
+            }
+        }
+        (a, b) => run.violation(
+            &format!("C09:borrow:cow-differs-from-string:{}{sfx}", if a.is_ok() { "ok-vs-err" } else { "err-vs-ok" }),
+            case(),
+            format!("String: {:?} | Cow: {:?}", a.as_ref().map_err(kind), b.as_ref().map_err(kind)),
+        ),
+    }
+
+    // --- &str through the three in-memory entry points must agree with each other
+    for (name, other) in [("from_slice", &r.borrowed_slice), ("with_de_str", &r.borrowed_wde)] {
+        let same = match (&r.borrowed, other) {
+            (Ok(a), Ok(b)) => a == b,
+            (Err(a), Err(b)) => same_err(a, b),
+            _ => false,
+        };
+        if !same {
+            run.violation(
+                &format!("C09:borrow:{name}-differs-from-from_str{sfx}"),
+                case(),
+                format!("from_str: {:?} | {name}: {:?}", r.borrowed.as_ref().map_err(kind), other.as_ref().map_err(kind)),
+            );
+        }
+    }
+
+    // --- &str vs String
+    match (&r.owned, &r.borrowed) {
+        (Err(_), Ok(b)) => run.violation(&format!("C09:borrow:str-ok-but-string-err{sfx}"), case(), format!("&str: {b:?}")),
+        (Err(_), Err(_)) => l.add("borrow_both_err", 1),
+        (Ok(w), Ok(b)) => {
+            let bs: Vec<&String> = b.iter().map(|(s, _)| s).collect();
+            let ws: Vec<&String> = w.iter().collect();
+            if bs != ws {
+                run.violation(&format!("C09:borrow:str-differs-from-string{sfx}"), case(), format!("String: {w:?} | &str: {b:?}"));
+            } else if b.iter().any(|(_, inr)| !*inr) {
+                run.violation(&format!("C09:borrow:str-not-a-subslice-of-input{sfx}"), case(), format!("&str: {b:?}"));
+            } else {
+                l.add("borrow_str_ok_subslice_and_equal", 1);
+                l.add("borrow_str_values_checked", b.len() as u64);
+                if let Some(i) = &info
+                    && i.classes.iter().any(|c| *c == SClass::NotVerbatim)
+                {
+                    // cannot happen together with the sub-slice check; kept as an explicit monitor
+                    run.violation(&format!("C09:borrow:must-fail-accepted{sfx}"), case(), format!("&str: {b:?}"));
+                }
+            }
+        }
+        (Ok(w), Err(e)) => {
+            let k = kind(e);
+            match &info {
+                None => {
+                    run.count("unspecified/borrow-raw-parse-not-one-document", 1);
+                }
+                Some(i) if i.has_alias_or_tag => {
+                    run.count("unspecified/borrow-alias-anchor-or-tag", 1);
+                }
+                Some(i) => {
+                    if k != "CannotBorrowTransformedString" {
+                        run.violation(
+                            &format!("C09:borrow:wrong-error-kind:{k}{sfx}"),
+                            case(),
+                            format!("String: {w:?} | &str: Err({k}) {}", e.without_snippet()),
+                        );
+                    } else if !i.classes.is_empty() && i.classes.iter().all(|c| *c == SClass::MustBorrow) {
+                        run.violation(
+                            &format!("C09:borrow:must-borrow-refused{sfx}"),
+                            case(),
+                            format!("every scalar is verbatim single-line plain/quoted, String: {w:?} | &str: Err({k})"),
+                        );
+                    } else if i.classes.iter().any(|c| *c == SClass::NotVerbatim) {
+                        l.add("borrow_must_fail_refused_with_dedicated_error", 1);
+                    } else {
+                        run.count("unspecified/borrow-verbatim-undetermined (block scalar, empty string, multi-line)", 1);
+                    }
+                }
+            }
+        }
+    }
+    if let (Some(i), Ok(_)) = (&info, &r.borrowed)
+        && !i.classes.is_empty()
+        && i.classes.iter().all(|c| *c == SClass::MustBorrow)
+    {
+        l.add("borrow_must_borrow_succeeded", 1);
+    }
+
+    // --- reader never lends
+    match &r.reader_borrowed {
+        Ok(n) if *n > 0 => run.violation(
+            &format!("C09:borrow:reader-lent{sfx}"),
+            case(),
+            format!("with_deserializer_from_reader produced {n} borrowed &str value(s)"),
+        ),
+        Ok(_) => l.add("borrow_reader_ok_without_strings", 1),
+        Err(e) => {
+            l.add("borrow_reader_refused", 1);
+            if let Ok(w) = &r.owned
+                && !w.is_empty()
+            {
+                l.kinds.insert(format!("reader-borrow:{}", kind(e)));
+            }
+        }
+    }
+}
+
+// ------------------------------------------------------------------ replay
+
+fn replay(run: &Run, case: &Value) {
+    let base = case["text"].as_str().unwrap_or("").to_string();
+    let bom = case["bom"].as_bool().unwrap_or(false);
+    let ch = Chunking::from_json(&case["chunking"]);
+    let mut l = Local::default();
+    if case["section"].as_str() == Some("borrow") {
+        let shape = match case["shape"].as_str() {
+            Some("root") => Shape::Root,
+            Some("map") => Shape::Map,
+            _ => Shape::Seq,
+        };
+        check_borrow(run, &mut l, shape, &base, bom, &ch);
+        return;
+    }
+    let t = targets::by_name(case["target"].as_str().unwrap_or("Val")).unwrap_or(targets::by_name("Val").unwrap());
+    let optv = case["opts"].as_u64().unwrap_or(0) as usize;
+    let e = Entry::from_name(case["entry"].as_str().unwrap_or("from_str"));
+    let reference = match catch(|| (t.from_str)(&base, opts(optv))) {
+        Ok(o) => canon(&o),
+        Err(p) => {
+            run.violation(&format!("C09:panic:{}", panic_site(&p)), case.clone(), p);
+            return;
+        }
+    };
+    let text = if bom { format!("{BOM}{base}") } else { base.clone() };
+    compare_one(run, &mut l, "replay", &base, &text, bom, t, optv, &reference, e, "replay", &ch);
+}
+
+// ------------------------------------------------------------------ main
+
+const TARGETS_QUICK: &[&str] = &["Val", "json", "VecString", "MapStrVal", "Mixed", "String"];
+const TARGETS_PART: &[&str] = &["Val", "VecString", "MapStrVal"];
+
+fn target_list(names: &[&str]) -> Vec<&'static Target> {
+    names.iter().filter_map(|n| targets::by_name(n)).collect()
 }
 
 fn main() {
-    let docs = [
-        "a: 1\n",
-        "\u{FEFF}a: 1\n",
-        "\u{FEFF}a: [\n",
-        "a: [\n",
-        "é: [\n",
-        "\u{FEFF}é: é: [\n",
-        "é: é: [\n",
-        "a: 1\r\nb: [\r\n",
-        "a: 1\rb: [\r",
-        "a:\t1\n\tb: 2\n",
-        "a\0b\n",
-        "- a\0\n- b\n",
-        "- *x\n",
-        "a\n---\nb\n",
-        "\"\\xZZ\"",
-        "k: \"é\\q\"",
-        "'abc",
-    ];
-    for t in ["Val", "VecString"] {
-        let t = targets::by_name(t).unwrap();
-        for d in docs {
-            let o = || serde_saphyr::Options::default();
-            let a = (t.from_str)(d, o());
-            let mut r = CutReader::plain(d.as_bytes(), Chunking::Every(1));
-            let b = (t.from_reader)(&mut r, o());
-            let mut r = CutReader::plain(d.as_bytes(), Chunking::Every(1));
-            let c = (t.with_de_reader)(&mut r, o());
-            let fl = if show(&a) != show(&b) || show(&a) != show(&c) { "DIFF" } else { "" };
-            println!("{:?} [{}] str={} rdr={} wdr={} {}", d, t.name, show(&a), show(&b), show(&c), fl);
+    let run = Run::from_args("C09");
+    if let Some(rep) = run.is_replay() {
+        replay(&run, &rep["case"]);
+        run.finish(Finish::new("replay"));
+    }
+    let tier = run.tier;
+    let thorough = tier == Tier::Thorough;
+    let general_targets: Vec<&'static Target> =
+        if thorough { targets::all().iter().collect() } else { target_list(TARGETS_QUICK) };
+    let part_targets = target_list(TARGETS_PART);
+    let val_t = targets::by_name("Val").unwrap();
+    // development aid: C09_SECTIONS=1,3 runs only those sections (default: all)
+    let only: Option<Vec<usize>> =
+        std::env::var("C09_SECTIONS").ok().map(|s| s.split(',').filter_map(|x| x.trim().parse().ok()).collect());
+    let on = |k: usize| only.as_ref().is_none_or(|v| v.contains(&k));
+
+    // ================= 1. all 2^(n-1) partitions of short inputs
+    let bound = tier.pick(12usize, 16usize);
+    let shorts: Vec<String> = corpus::short_inputs().into_iter().filter(|s| s.len() <= bound && s.len() >= 2).collect();
+    run.count("partition_inputs", shorts.len() as u64);
+    // work items: (input index, with bom?, mask block)
+    let mut items: Vec<(usize, bool, u64, u64)> = Vec::new();
+    for (i, s) in shorts.iter().enumerate() {
+        for bom in [false, true] {
+            let n = s.len() + if bom { 3 } else { 0 };
+            if n > bound || (bom && s.starts_with(BOM)) {
+                continue;
+            }
+            let total: u64 = 1u64 << (n - 1);
+            let block = 1024u64;
+            let mut lo = 0;
+            while lo < total {
+                items.push((i, bom, lo, (lo + block).min(total)));
+                lo += block;
+            }
         }
     }
-    // truncated char with and without BOM
-    for d in ["a: é\n", "\u{FEFF}a: é\n", "é", "\u{FEFF}é"] {
-        let bytes = d.as_bytes();
-        let k = d.find('é').unwrap() + 1;
-        let t = targets::by_name("Val").unwrap();
-        let mut r = CutReader::new(bytes, Chunking::Every(1), RFault::EofAfterBytes(k));
-        let b = (t.from_reader)(&mut r, serde_saphyr::Options::default());
-        println!("trunc {:?} k={k} -> {} {}", d, show(&b), b.as_ref().err().map(|e| e.to_string()).unwrap_or_default());
-    }
-    // borrow
-    for d in [
-        "k1: abc\nk2: def\n",
-        "k1: \"a\\tb\"\nk2: def\n",
-        "k1: abc\nk2: \"d\\tf\"\n",
-        "k1: abc\nk2: 'd''f'\n",
-        "k1: abc\nk2: 'df'\n",
-        "k1: abc\nk2: \"df\"\n",
-        "k1: abc\nk2: d\n  f\n",
-        "k1: abc\nk2: |\n  df\n",
-        "k1: abc\nk2: \"\"\n",
-        "k1: &a abc\nk2: *a\n",
-        "{k1: abc, k2: def}",
-        "k1: abc\nk2: ~\n",
-    ] {
-        let r: Result<B, _> = serde_saphyr::from_str(d);
-        match r {
-            Ok(b) => println!(
-                "borrow {:?} -> k1 borrowed={} k2={:?} in_range={}",
-                d,
-                matches!(b.k1, Cow::Borrowed(_)),
-                b.k2,
-                {
-                    let p = b.k2.as_ptr() as usize;
-                    let s = d.as_ptr() as usize;
-                    p >= s && p + b.k2.len() <= s + d.len()
+    par_range(if on(1) { items.len() } else { 0 }, |ix| {
+        let (i, bom, lo, hi) = items[ix];
+        let base = &shorts[i];
+        let text = if bom { format!("{BOM}{base}") } else { base.clone() };
+        let mut l = Local::default();
+        for t in &part_targets {
+            let reference = match catch(|| (t.from_str)(base, opts(0))) {
+                Ok(o) => canon(&o),
+                Err(p) => {
+                    run.violation(&format!("C09:panic:{}", panic_site(&p)), json!({"section":"partitions","text":base,"bom":false,"target":t.name,"opts":0,"entry":"from_str","chunking":"whole"}), p);
+                    continue;
                 }
-            ),
-            Err(e) => println!("borrow {:?} -> Err({} @ {:?}) {}", d, kind(&e), line_col(&e), e.without_snippet()),
+            };
+            if lo == 0 {
+                run.eval();
+                for e in [Entry::FromStr, Entry::FromSlice, Entry::WithDeStr, Entry::WithDeSlice] {
+                    compare_one(&run, &mut l, "partitions", base, &text, bom, t, 0, &reference, e, "-", &Chunking::Whole);
+                }
+            }
+            for m in lo..hi {
+                let ch = Chunking::Mask(m);
+                for e in [Entry::FromReader, Entry::WithDeReader] {
+                    compare_one(&run, &mut l, "partitions", base, &text, bom, t, 0, &reference, e, "all-partitions", &ch);
+                }
+            }
         }
-        let r2 = serde_saphyr::with_deserializer_from_reader(d.as_bytes(), |de| {
-            use serde::Deserialize;
-            let r: Result<B, _> = B::deserialize(de);
-            r.map(|b| format!("{b:?}"))
-        });
-        println!("    reader: {}", show(&r2));
-        let r3: Result<BTreeMap<&str, &str>, _> = serde_saphyr::from_str(d);
-        println!("    map<&str,&str>: {}", show(&r3.map(|m| format!("{m:?}"))));
-        let r4: Result<Vec<&str>, _> = serde_saphyr::from_str("- abc\n- \"x\\ty\"\n");
-        println!("    vec: {}", show(&r4.map(|m| format!("{m:?}"))));
+        l.add("partition_masks_run", (hi - lo) * part_targets.len() as u64);
+        if lo == 0 && i % 7 == 0 {
+            run.sample(|| json!({"section": "partitions", "text": base, "bom": bom, "partitions": (1u64 << (text.len() - 1)).to_string()}));
+        }
+        l.flush(&run);
+    });
+
+    // ================= 2. token strings: every string over the 28-token alphabet up to length L
+    let toks = corpus::TOKENS;
+    let max_len = tier.pick(3usize, 4usize);
+    let mut n_strings = 0usize;
+    let mut pow = 1usize;
+    let mut offsets = vec![0usize];
+    for _ in 1..=max_len {
+        pow *= toks.len();
+        n_strings += pow;
+        offsets.push(n_strings);
+    }
+    run.count("token_strings", n_strings as u64);
+    par_range(if on(2) { n_strings } else { 0 }, |ix| {
+        // decode ix -> (len, digits)
+        let len = (1..=max_len).find(|l| ix < offsets[*l]).unwrap();
+        let mut k = ix - offsets[len - 1];
+        let mut s = String::new();
+        for _ in 0..len {
+            s.push_str(toks[k % toks.len()]);
+            k /= toks.len();
+        }
+        let mut l = Local::default();
+        if std::env::var_os("C09_TRACE").is_some() {
+            eprintln!("tok {ix} {s:?}");
+        }
+        let mut rng = Rng::stream(run.seed, ix as u64 ^ 0x7001);
+        let n = s.len();
+        let mut scheds = vec![Sched { label: "every-1", ch: Chunking::Every(1) }];
+        if n <= 8 && n >= 2 && len <= 3 {
+            // all partitions of short token strings (at most 128 each)
+            for m in 1..(1u64 << (n - 1)) {
+                scheds.push(Sched { label: "all-partitions", ch: Chunking::Mask(m) });
+            }
+            l.add("token_strings_with_all_partitions", 1);
+        } else {
+            scheds.push(Sched { label: "every-2", ch: Chunking::Every(2) });
+            scheds.push(Sched { label: "every-3", ch: Chunking::Every(3) });
+            let cuts: Vec<usize> = (1..n).filter(|_| rng.bool()).collect();
+            scheds.push(Sched { label: "random-1/2", ch: Chunking::Cuts(cuts) });
+            scheds.push(Sched { label: "adversarial-all", ch: Chunking::Cuts(adversarial_positions(s.as_bytes())) });
+        }
+        let bom_scheds = [Sched { label: "every-1", ch: Chunking::Every(1) }, Sched { label: "every-2", ch: Chunking::Every(2) }];
+        let with_bom = len <= 3 || ix % 5 == 0;
+        check_text(&run, &mut l, "tokens", &s, with_bom, val_t, 0, &scheds, &bom_scheds);
+        // a typed target with one reader schedule
+        let t2 = part_targets[1 + ix % 2];
+        check_text(&run, &mut l, "tokens", &s, false, t2, ix % 4, &scheds[..1], &[]);
+        if ix % 50_021 == 0 {
+            run.sample(|| json!({"section": "tokens", "text": s}));
+        }
+        l.flush(&run);
+    });
+
+    // ================= 3. hand-made documents (failing and otherwise), every target, every option vector
+    let hand = corpus::hand_made();
+    run.count("hand_made_documents", hand.len() as u64);
+    let all_targets: Vec<&'static Target> = targets::all().iter().collect();
+    par_range(if on(3) { hand.len() } else { 0 }, |i| {
+        let base = &hand[i];
+        let mut l = Local::default();
+        let mut rng = Rng::stream(run.seed, i as u64 ^ 0x3003);
+        let scheds = schedules(base.as_bytes(), &mut rng, 12);
+        let with = format!("{BOM}{base}");
+        let scheds_bom = schedules(with.as_bytes(), &mut rng, 6);
+        for t in &all_targets {
+            for optv in 0..4 {
+                check_text(&run, &mut l, "hand-made", base, true, t, optv, &scheds, &scheds_bom);
+            }
+        }
+        if i % 5 == 0 {
+            run.sample(|| json!({"section": "hand-made", "text": base}));
+        }
+        l.flush(&run);
+    });
+
+    // ================= 4. generated documents, their mutants, and harvested literals
+    let harvested = corpus::harvest_repo_tests(std::path::Path::new("/repo/tests"));
+    run.count("harvested_literals_total", harvested.len() as u64);
+    if harvested.is_empty() {
+        run.note("no string literals could be harvested from /repo/tests (optional corpus absent)");
+    }
+    let n_harvest = if thorough { harvested.len() } else { harvested.len().min(3000) };
+    let harvest_pick: Vec<usize> = {
+        let mut idx: Vec<usize> = (0..harvested.len()).collect();
+        let mut rng = Rng::stream(run.seed, 0x4a11);
+        rng.shuffle(&mut idx);
+        idx.truncate(n_harvest);
+        idx
+    };
+    let n_gen = tier.pick(12_000usize, 200_000usize);
+    let n_items = n_gen + harvest_pick.len();
+    par_range(if on(4) { n_items } else { 0 }, |i| {
+        let mut rng = Rng::stream(run.seed, i as u64 ^ 0x9009);
+        let mut l = Local::default();
+        let (section, base): (&'static str, String) = if i < n_gen {
+            let d = corpus::random_document(&mut rng);
+            match i % 3 {
+                0 => ("generated", d),
+                1 => ("generated-mutant", corpus::mutate(&d, &mut rng)),
+                _ => {
+                    let m = corpus::mutate(&d, &mut rng);
+                    ("generated-mutant", corpus::mutate(&m, &mut rng))
+                }
+            }
+        } else {
+            let h = &harvested[harvest_pick[i - n_gen]];
+            if rng.chance(1, 4) { ("harvested-mutant", corpus::mutate(h, &mut rng)) } else { ("harvested", h.clone()) }
+        };
+        l.add(
+            match section {
+                "generated" => "docs_generated",
+                "generated-mutant" => "docs_generated_mutants",
+                "harvested" => "docs_harvested",
+                _ => "docs_harvested_mutants",
+            },
+            1,
+        );
+        if !base.is_ascii() {
+            l.add("docs_with_multibyte", 1);
+        }
+        if base.contains('\r') {
+            l.add("docs_with_cr", 1);
+        }
+        let singles = if thorough { 6 } else { 3 };
+        let scheds = schedules(base.as_bytes(), &mut rng, singles);
+        let with_bom = i % 3 == 0;
+        let scheds_bom = if with_bom { schedules(format!("{BOM}{base}").as_bytes(), &mut rng, 1) } else { Vec::new() };
+        // two targets per document in quick (rotating), all in thorough for a third of the documents
+        let n_t = if thorough && i % 3 == 0 { general_targets.len() } else { 2 };
+        for j in 0..n_t {
+            let t = general_targets[(i + j * 5) % general_targets.len()];
+            let optv = if j == 0 { 0 } else { (i / 7 + j) % 4 };
+            check_text(&run, &mut l, section, &base, with_bom, t, optv, &scheds, &scheds_bom);
+        }
+        if i % 2503 == 0 {
+            run.sample(|| json!({"section": section, "text": base.chars().take(400).collect::<String>()}));
+        }
+        l.flush(&run);
+    });
+
+    // ================= 5. large multi-byte documents: BufReader (8 KiB) boundaries fall inside characters
+    let n_large = tier.pick(24usize, 96usize);
+    par_range(if on(5) { n_large } else { 0 }, |i| {
+        let mut rng = Rng::stream(run.seed, i as u64 ^ 0x1a46e);
+        let mut l = Local::default();
+        let base = corpus::large_multibyte_document(i, &mut rng);
+        let scheds = schedules(base.as_bytes(), &mut rng, 2);
+        let sb = [Sched { label: "whole", ch: Chunking::Whole }, Sched { label: "every-4096", ch: Chunking::Every(4096) }];
+        for t in [val_t, targets::by_name("VecString").unwrap(), targets::by_name("MapStrVal").unwrap()] {
+            check_text(&run, &mut l, "large-multibyte", &base, true, t, 0, &scheds, &sb);
+        }
+        l.add("docs_large_multibyte", 1);
+        l.flush(&run);
+    });
+
+    // ================= 6. invalid UTF-8: unspecified (no verdict), only executed for totality
+    for bad in corpus::invalid_utf8() {
+        for t in [val_t] {
+            let r = catch(|| {
+                let a = (t.from_slice)(&bad, opts(0));
+                let mut rd = CutReader::plain(&bad, Chunking::Every(1));
+                let b = (t.from_reader)(&mut rd, opts(0));
+                (a.err().map(|e| kind(&e)), b.err().map(|e| kind(&e)))
+            });
+            run.evals(2);
+            match r {
+                Ok((a, b)) => {
+                    run.count("unspecified/invalid-utf8", 1);
+                    run.observe("invalid_utf8_outcomes(from_slice|from_reader)", &format!("{a:?}|{b:?}"));
+                }
+                Err(p) => run.violation(
+                    &format!("C09:panic:{}", panic_site(&p)),
+                    json!({"section":"invalid-utf8","bytes": bad}),
+                    p,
+                ),
+            }
+        }
+    }
+
+    // ================= 7. borrowing
+    let leaves = corpus::borrow_leaves();
+    run.count("borrow_leaf_alphabet", leaves.len() as u64);
+    let max_k = 3usize;
+    let nl = leaves.len();
+    let mut seqs = 0usize;
+    let mut boff = vec![0usize];
+    let mut p = 1usize;
+    for _ in 1..=max_k {
+        p *= nl;
+        seqs += p;
+        boff.push(seqs);
+    }
+    // thorough: every sequence of <= 3 leaves; quick: every sequence of <= 2 leaves + a seeded sample of the triples
+    let quick_triples = 6000usize;
+    let n_b = if thorough { seqs } else { boff[2] + quick_triples };
+    par_range(if on(7) { n_b } else { 0 }, |ix| {
+        let mut l = Local::default();
+        let mut rng = Rng::stream(run.seed, ix as u64 ^ 0xb0b0);
+        let ix2 = if ix < boff[2] || thorough { ix } else { boff[2] + rng.below(boff[3] - boff[2]) };
+        let len = (1..=max_k).find(|l| ix2 < boff[*l]).unwrap();
+        let mut k = ix2 - boff[len - 1];
+        let mut picked: Vec<Node> = Vec::new();
+        for _ in 0..len {
+            picked.push(leaves[k % nl].clone());
+            k /= nl;
+        }
+        let mut docs: Vec<(Shape, Node)> = Vec::new();
+        if len == 1 {
+            docs.push((Shape::Root, picked[0].clone()));
+        }
+        docs.push((Shape::Seq, Node::seq(picked.clone())));
+        docs.push((Shape::Seq, Node::fseq(picked.clone())));
+        let entries: Vec<(Node, Node)> = picked.iter().enumerate().map(|(i, n)| (Node::plain(&format!("k{}", i + 1)), n.clone())).collect();
+        docs.push((Shape::Map, Node::map(entries.clone())));
+        docs.push((Shape::Map, Node::fmap(entries)));
+        if len <= 2 {
+            // leaves in key position
+            let kentries: Vec<(Node, Node)> = picked.iter().enumerate().map(|(i, n)| (n.clone(), Node::plain(&format!("v{}", i + 1)))).collect();
+            docs.push((Shape::Map, Node::map(kentries.clone())));
+            docs.push((Shape::Map, Node::fmap(kentries)));
+        }
+        for (shape, node) in docs {
+            for brk in ["\n", "\r\n"] {
+                if brk == "\r\n" && ix % 4 != 0 {
+                    continue;
+                }
+                let ro = RenderOpts { indent: 2, brk, compact: true };
+                let base = ydoc::render(&node, &ro).text;
+                let ch = match ix % 3 {
+                    0 => Chunking::Every(1),
+                    1 => Chunking::Every(3),
+                    _ => Chunking::Whole,
+                };
+                check_borrow(&run, &mut l, shape, &base, false, &ch);
+                if ix % 3 == 0 {
+                    check_borrow(&run, &mut l, shape, &base, true, &ch);
+                }
+                if ix % 1511 == 0 {
+                    run.sample(|| json!({"section": "borrow", "shape": shape.name(), "text": base}));
+                }
+            }
+        }
+        l.flush(&run);
+    });
+    // borrowing on hand-written documents too (comments, indentation, anchors …)
+    for (shape, base) in corpus::borrow_hand_made() {
+        let mut l = Local::default();
+        for bom in [false, true] {
+            check_borrow(&run, &mut l, shape_of(shape), base, bom, &Chunking::Every(1));
+        }
+        l.flush(&run);
+    }
+
+    let _ = Style::Plain;
+    let scope = format!(
+        "(a) all 2^(n-1) partitions of each of the {} listed short inputs of <= {bound} bytes (and of their BOM-prefixed variants that still fit the bound) into read calls, x {{from_reader, with_deserializer_from_reader}} x targets {{Val, VecString, MapStrVal}}; (b) every string of <= {max_len} tokens over the 28-token alphabet (all partitions for those of <= 3 tokens and <= 8 bytes, target Val); (c) borrowing: every sequence of <= {} leaves over the {}-leaf scalar alphabet x {{root, block/flow seq, block/flow map values, map keys}}",
+        shorts.len(),
+        if thorough { 3 } else { 2 },
+        leaves.len()
+    );
+    let fin = Finish::new(
+        "a reader case is non-trivial when the instrumented reader delivered data in >= 2 read calls (a real split happened), distinct by hash(text, bom, options, target, entry point, exact cut set); a borrowing case always is (the target borrows), distinct by hash(text, bom, shape)",
+    )
+    .exhaustive(scope)
+    .assume("reference outcome = from_str_with_options on the BOM-less text; errors compared by variant name of without_snippet() and (line, column); byte offsets not compared")
+    .assume("instrumented readers never return Ok(0) before the end of data and never ErrorKind::Interrupted")
+    .assume("invalid UTF-8 is unspecified (executed, no verdict)")
+    .assume("borrowing: must-borrow only for single-line plain / single-quoted without '' / double-quoted without backslash scalars whose raw-parser span equals the value; documents with anchors, aliases or tags give no must-borrow verdict; block scalars and empty strings are unspecified for must-borrow")
+    .min_nontrivial(tier.pick(50_000, 500_000));
+    run.finish(fin);
+}
+
+fn shape_of(s: &str) -> Shape {
+    match s {
+        "root" => Shape::Root,
+        "map" => Shape::Map,
+        _ => Shape::Seq,
     }
 }
